@@ -500,6 +500,7 @@ type Step struct {
 	Op      Op
 	Obs     Obs
 	Queries []Query
+	Trace   []RecCall // storage calls issued by the step, if recorded
 }
 
 type Case struct {
@@ -531,7 +532,19 @@ func (c Case) Coq() string {
 	for _, s := range c.Steps {
 		steps = append(steps, "("+s.Op.Coq()+",\n    "+s.Obs.Coq()+",\n    "+coqQueries(s.Queries)+")")
 	}
-	return fmt.Sprintf("mkCase %d %s\n  %s\n  %s %s\n  %s\n  [%s]", c.ID, be, init, c.InitObs.Coq(), CoqBool(c.HasHandle), coqQueries(c.InitQueries), strings.Join(steps, ";\n   "))
+	var traces []string
+	for _, s := range c.Steps {
+		var cs []string
+		for _, x := range s.Trace {
+			if x.Kind == 3 {
+				cs = append(cs, "(3,0)")
+			} else {
+				cs = append(cs, fmt.Sprintf("(%d,%s)", x.Kind, CoqZ(x.Arg)))
+			}
+		}
+		traces = append(traces, "["+strings.Join(cs, ";")+"]")
+	}
+	return fmt.Sprintf("mkCase %d %s\n  %s\n  %s %s\n  %s\n  [%s]\n  [%s]", c.ID, be, init, c.InitObs.Coq(), CoqBool(c.HasHandle), coqQueries(c.InitQueries), strings.Join(steps, ";\n   "), strings.Join(traces, "; "))
 }
 
 // CasesFile renders a complete Coq file evaluating the model on cs.
